@@ -7,4 +7,7 @@ shift
 if [ $# -eq 0 ]; then
   set -- $(python3 -c "import json,sys; print(' '.join(json.load(open('$D/meta.json'))['checks']))")
 fi
+# a seed may name the commit of /repo it applies to ("base" in meta.json) when a later fix: commit touches the same lines
+B=$(python3 -c "import json; print(json.load(open('$D/meta.json')).get('base',''))")
+[ -n "$B" ] && export BASE="$B"
 exec "$(dirname "$0")/try_patch.sh" "$D/patch.diff" "$@"
